@@ -110,3 +110,323 @@ Proof.
   intros p args m m' Hp Hl Hd. unfold exec_parse.
   rewrite (exec_p_local args m m' Hp Hl Hd). rewrite Hp. reflexivity.
 Qed.
+
+(* ================================================================ symbolic bits *)
+Lemma small_bits a k i : 0 <= a < 2^k -> 0 <= k <= i -> Z.testbit a i = false.
+Proof. intros Ha Hk. rewrite <- (Z.mod_small a (2^k)) by lia. apply Z.mod_pow2_bits_high. lia. Qed.
+
+Lemma neg_bits a k i : - 2^k <= a < 0 -> 0 <= k <= i -> Z.testbit a i = true.
+Proof.
+  intros Ha Hk. replace a with (Z.lnot (Z.lnot a)) by apply Z.lnot_involutive.
+  rewrite Z.lnot_spec by lia. rewrite (small_bits (Z.lnot a) k i); [reflexivity| |lia].
+  unfold Z.lnot. lia.
+Qed.
+
+Lemma top_bit u w : 0 < w -> 0 <= u < 2^w -> Z.testbit u (w-1) = (2^(w-1) <=? u).
+Proof.
+  intros Hw Hu. assert (P: 2^w = 2 * 2^(w-1)) by (rewrite <- Z.pow_succ_r by lia; f_equal; lia).
+  destruct (2^(w-1) <=? u) eqn:E.
+  - apply Z.leb_le in E. apply Z.testbit_true; [lia|].
+    replace (u / 2^(w-1)) with 1; [reflexivity|]. apply Z.div_unique with (u - 2^(w-1)); lia.
+  - apply Z.leb_gt in E. apply (small_bits u (w-1)); lia.
+Qed.
+
+Lemma signed_bits u w i : 0 < w -> 0 <= u < 2^w -> 0 <= i ->
+  Z.testbit (if 2^(w-1) <=? u then u - 2^w else u) i = if i <? w then Z.testbit u i else Z.testbit u (w-1).
+Proof.
+  intros Hw Hu Hi. rewrite (top_bit u w Hw Hu).
+  destruct (2^(w-1) <=? u) eqn:E.
+  - destruct (i <? w) eqn:F.
+    + apply Z.ltb_lt in F. rewrite <- (Z.mod_pow2_bits_low (u - 2^w) w i) by lia.
+      replace ((u - 2^w) mod 2^w) with u; [reflexivity|].
+      apply Z.mod_unique with (-1); lia.
+    + apply Z.ltb_ge in F. apply (neg_bits (u - 2^w) w i); lia.
+  - destruct (i <? w) eqn:F; [reflexivity|]. apply Z.ltb_ge in F. apply Z.leb_gt in E.
+    apply (small_bits u w i); lia.
+Qed.
+
+Section Bits.
+  Variable beta : nat -> Z.
+  Notation bv := (bt_val beta).
+
+  Lemma bnot_val b : bv (bnot b) = negb (bv b).
+  Proof. destruct b; simpl; try reflexivity. destruct neg, (Z.testbit (beta a) (Z.of_nat j)); reflexivity. Qed.
+
+  Lemma bt_eqb_eq x y : bt_eqb x y = true -> x = y.
+  Proof.
+    destruct x, y; simpl; try discriminate; try reflexivity.
+    rewrite !andb_true_iff. intros [[A B] C]. apply Nat.eqb_eq in A. apply Nat.eqb_eq in B. apply eqb_prop in C. now subst.
+  Qed.
+
+  Lemma band_val x y z : band x y = Some z -> bv z = bv x && bv y.
+  Proof.
+    destruct x, y; simpl; intros H; try (inversion H; subst; simpl; try reflexivity; try (now rewrite andb_true_r); try (now rewrite andb_false_r)).
+    destruct (Nat.eqb a a0 && Nat.eqb j j0) eqn:E; [|discriminate].
+    apply andb_true_iff in E. destruct E as [A B]. apply Nat.eqb_eq in A. apply Nat.eqb_eq in B. subst.
+    inversion H; subst; clear H. destruct neg, neg0; simpl; destruct (Z.testbit (beta a0) (Z.of_nat j0)); reflexivity.
+  Qed.
+
+  Lemma bor_val x y z : bor x y = Some z -> bv z = bv x || bv y.
+  Proof.
+    unfold bor. destruct (band (bnot x) (bnot y)) as [t|] eqn:E; [|discriminate]. simpl. intros H. inversion H; subst.
+    rewrite bnot_val, (band_val _ _ _ E), !bnot_val. destruct (bv x), (bv y); reflexivity.
+  Qed.
+
+  Lemma bxor_val x y z : bxor x y = Some z -> bv z = xorb (bv x) (bv y).
+  Proof.
+    destruct x, y; simpl; intros H; try (inversion H; subst; simpl; try reflexivity;
+      try (rewrite ?bnot_val; simpl; try destruct neg; try destruct (Z.testbit (beta a) (Z.of_nat j)); reflexivity)).
+    destruct (Nat.eqb a a0 && Nat.eqb j j0) eqn:E; [|discriminate].
+    apply andb_true_iff in E. destruct E as [A B]. apply Nat.eqb_eq in A. apply Nat.eqb_eq in B. subst.
+    inversion H; subst; clear H. destruct neg, neg0; simpl; destruct (Z.testbit (beta a0) (Z.of_nat j0)); reflexivity.
+  Qed.
+
+  Lemma bmux_val c x y z : bmux c x y = Some z -> bv z = if bv c then bv x else bv y.
+  Proof.
+    unfold bmux. destruct (bt_eqb x y) eqn:E.
+    - apply bt_eqb_eq in E. subst. intros H. inversion H; subst. destruct (bv c); reflexivity.
+    - destruct c; try (intros H; inversion H; subst; reflexivity).
+      destruct x, y; try discriminate; intros H; inversion H; subst; rewrite ?bnot_val;
+        simpl; destruct neg, (Z.testbit (beta a) (Z.of_nat j)); reflexivity.
+  Qed.
+
+  (* ---- sequences of optional results *)
+  Lemma sequence_nth {A} (l:list (option A)) : forall r, sequence l = Some r ->
+    length r = length l /\ forall i d, (i < length l)%nat -> nth i l None = Some (nth i r d).
+  Proof.
+    induction l as [|[x|] l IH]; simpl; intros r H.
+    - inversion H. split; [reflexivity|]. intros i d Hi. lia.
+    - destruct (sequence l) as [t|]; [|discriminate]. inversion H; subst. destruct (IH t eq_refl) as [L N].
+      split; [simpl; lia|]. intros [|i] d Hi; [reflexivity|]. simpl. apply N. lia.
+    - discriminate.
+  Qed.
+
+  Lemma nth_map_seq {A} (f:nat -> A) n i d : (i < n)%nat -> nth i (map f (seq 0 n)) d = f i.
+  Proof.
+    intros Hi. rewrite (nth_indep _ d (f 0%nat)) by (rewrite map_length, seq_length; lia).
+    rewrite map_nth. rewrite seq_nth by lia. reflexivity.
+  Qed.
+
+  Lemma bit_at_out v i : (length (bits v) <= i)%nat -> bit_at v i = sgn v.
+  Proof. intros H. unfold bit_at. now apply nth_overflow. Qed.
+
+  Lemma av_map2_bits f g x y v :
+    (forall a b c, f a b = Some c -> bv c = g (bv a) (bv b)) ->
+    av_map2 f x y = Some v -> forall i, bv (bit_at v i) = g (bv (bit_at x i)) (bv (bit_at y i)).
+  Proof.
+    intros Hf H i. unfold av_map2 in H.
+    set (n := Nat.max (length (bits x)) (length (bits y))) in *.
+    destruct (sequence (map (fun i => f (bit_at x i) (bit_at y i)) (seq 0 n))) as [l|] eqn:S; [|discriminate].
+    destruct (f (sgn x) (sgn y)) as [s|] eqn:Fs; [|discriminate]. inversion H; subst v; clear H.
+    destruct (sequence_nth _ _ S) as [L N]. rewrite map_length, seq_length in L.
+    destruct (Nat.lt_ge_cases i n) as [Hi|Hi].
+    - unfold bit_at at 1. simpl. specialize (N i s). rewrite map_length, seq_length in N. specialize (N Hi).
+      rewrite (nth_indep _ None (f (bit_at x 0) (bit_at y 0))) in N by (rewrite map_length, seq_length; lia).
+      rewrite (map_nth (fun i => f (bit_at x i) (bit_at y i))) in N. rewrite seq_nth in N by lia. simpl in N.
+      apply Hf in N. exact N.
+    - rewrite (bit_at_out {| bits := l; sgn := s |}) by (simpl; lia). simpl.
+      rewrite (bit_at_out x), (bit_at_out y) by lia. now apply Hf.
+  Qed.
+
+  Lemma rep_land x y v a b : av_map2 band x y = Some v -> represents beta x a -> represents beta y b -> represents beta v (Z.land a b).
+  Proof. intros H Ra Rb i. rewrite Z.land_spec, Ra, Rb. symmetry. apply (av_map2_bits band andb x y v band_val H). Qed.
+  Lemma rep_lor x y v a b : av_map2 bor x y = Some v -> represents beta x a -> represents beta y b -> represents beta v (Z.lor a b).
+  Proof. intros H Ra Rb i. rewrite Z.lor_spec, Ra, Rb. symmetry. apply (av_map2_bits bor orb x y v bor_val H). Qed.
+  Lemma rep_lxor x y v a b : av_map2 bxor x y = Some v -> represents beta x a -> represents beta y b -> represents beta v (Z.lxor a b).
+  Proof. intros H Ra Rb i. rewrite Z.lxor_spec, Ra, Rb. symmetry. apply (av_map2_bits bxor xorb x y v bxor_val H). Qed.
+
+  Lemma rep_not x a : represents beta x a -> represents beta (av_not x) (Z.lnot a).
+  Proof.
+    intros R i. rewrite Z.lnot_spec by lia. rewrite R. unfold bit_at, av_not. simpl.
+    rewrite (map_nth bnot). apply eq_sym, bnot_val.
+  Qed.
+
+  Lemma nth_skipn {A} (l:list A) : forall k i d, nth i (skipn k l) d = nth (k + i) l d.
+  Proof. induction l; intros [|k] i d; simpl; try reflexivity; try (destruct i; reflexivity). apply IHl. Qed.
+
+  Lemma rep_shl x a k : 0 <= k -> represents beta x a -> represents beta (av_shl x k) (Z.shiftl a k).
+  Proof.
+    intros Hk R i. rewrite Z.shiftl_spec by lia. unfold bit_at, av_shl. simpl.
+    destruct (Nat.lt_ge_cases i (Z.to_nat k)) as [Hi|Hi].
+    - rewrite app_nth1 by (rewrite repeat_length; lia). rewrite Z.testbit_neg_r by lia.
+      rewrite (nth_indep _ (sgn x) B0) by (rewrite repeat_length; lia). rewrite nth_repeat. reflexivity.
+    - rewrite app_nth2 by (rewrite repeat_length; lia). rewrite repeat_length.
+      replace (Z.of_nat i - k) with (Z.of_nat (i - Z.to_nat k)) by lia. apply R.
+  Qed.
+
+  Lemma rep_shr x a k : 0 <= k -> represents beta x a -> represents beta (av_shr x k) (Z.shiftr a k).
+  Proof.
+    intros Hk R i. rewrite Z.shiftr_spec by lia. unfold bit_at, av_shr. simpl. rewrite nth_skipn.
+    replace (Z.of_nat i + k) with (Z.of_nat (Z.to_nat k + i)) by lia. apply R.
+  Qed.
+
+  Lemma rep_cast x a w s : 0 < w -> represents beta x a -> represents beta (av_cast w s x) (wrapz w s a).
+  Proof.
+    intros Hw R i. unfold wrapz. set (u := a mod 2^w).
+    assert (Hu: 0 <= u < 2^w) by (apply Z.mod_pos_bound; apply Z.pow_pos_nonneg; lia).
+    set (n := Z.to_nat w). assert (Hn: (0 < n)%nat) by lia.
+    assert (Blow: forall j, (j < n)%nat -> bv (bit_at (av_cast w s x) j) = Z.testbit u (Z.of_nat j)).
+    { intros j Hj. unfold bit_at, av_cast. simpl. fold n. rewrite nth_map_seq by lia.
+      unfold u. rewrite Z.mod_pow2_bits_low by lia. symmetry. apply R. }
+    destruct s; simpl.
+    - rewrite (signed_bits u w (Z.of_nat i) Hw Hu) by lia.
+      destruct (Z.of_nat i <? w) eqn:F.
+      + apply Z.ltb_lt in F. symmetry. apply Blow. lia.
+      + apply Z.ltb_ge in F. rewrite bit_at_out by (simpl; rewrite map_length, seq_length; lia).
+        simpl. fold n. rewrite nth_map_seq by lia.
+        replace (w - 1) with (Z.of_nat (n - 1)) by lia.
+        unfold u. rewrite Z.mod_pow2_bits_low by lia. apply R.
+    - destruct (Nat.lt_ge_cases i n) as [Hi|Hi].
+      + symmetry. apply Blow. exact Hi.
+      + rewrite bit_at_out by (simpl; rewrite map_length, seq_length; lia). simpl.
+        apply (small_bits u w); lia.
+  Qed.
+
+  Lemma rep_const z : represents beta (av_const z) z.
+  Proof.
+    intros i. unfold av_const. set (n := (Z.to_nat (Z.log2 (Z.abs z)) + 2)%nat).
+    destruct (Nat.lt_ge_cases i n) as [Hi|Hi].
+    - unfold bit_at. simpl. rewrite nth_map_seq by exact Hi. destruct (Z.testbit z (Z.of_nat i)); reflexivity.
+    - rewrite bit_at_out by (simpl; rewrite map_length, seq_length; exact Hi). simpl.
+      assert (L: 0 <= Z.log2 (Z.abs z)) by apply Z.log2_nonneg.
+      destruct (z <? 0) eqn:E.
+      + apply Z.ltb_lt in E. simpl. apply (neg_bits z (Z.log2 (Z.abs z) + 1)); [|lia].
+        assert (LS: 0 < Z.abs z) by lia. apply Z.log2_spec in LS. rewrite <- Z.add_1_r in LS. lia.
+      + apply Z.ltb_ge in E. simpl. destruct (Z.eq_dec z 0) as [->|Nz]; [apply Z.bits_0|].
+        apply (small_bits z (Z.log2 (Z.abs z) + 1)); [|lia].
+        assert (LS: 0 < Z.abs z) by lia. apply Z.log2_spec in LS. rewrite <- Z.add_1_r in LS. lia.
+  Qed.
+
+  Lemma rep_arg a w (s:bool) : 0 < w -> (if s then - 2^(w-1) <= beta a < 2^(w-1) else 0 <= beta a < 2^w) ->
+    represents beta (av_arg a w s) (beta a).
+  Proof.
+    intros Hw Hr i. unfold av_arg. set (n := Z.to_nat w).
+    destruct (Nat.lt_ge_cases i n) as [Hi|Hi].
+    - unfold bit_at. simpl. rewrite nth_map_seq by exact Hi. simpl. destruct (Z.testbit (beta a) (Z.of_nat i)); reflexivity.
+    - rewrite bit_at_out by (simpl; rewrite map_length, seq_length; exact Hi). simpl.
+      destruct s; simpl.
+      + replace (Z.of_nat (n - 1)) with (w - 1) by lia.
+        destruct (Z.lt_ge_cases (beta a) 0).
+        * rewrite (neg_bits (beta a) (w-1) (Z.of_nat i)) by lia. rewrite (neg_bits (beta a) (w-1) (w-1)) by lia. reflexivity.
+        * rewrite (small_bits (beta a) (w-1) (Z.of_nat i)) by lia. rewrite (small_bits (beta a) (w-1) (w-1)) by lia. reflexivity.
+      + apply (small_bits (beta a) w); lia.
+  Qed.
+
+  Lemma rep_inj x y a b : av_eqb x y = true -> represents beta x a -> represents beta y b -> a = b.
+  Proof.
+    unfold av_eqb. set (n := Nat.max (length (bits x)) (length (bits y))). rewrite andb_true_iff. intros [F S] Ra Rb.
+    apply Z.bits_inj'. intros k Hk. rewrite <- (Z2Nat.id k Hk). rewrite Ra, Rb. f_equal.
+    destruct (Nat.lt_ge_cases (Z.to_nat k) n) as [Hi|Hi].
+    - rewrite forallb_forall in F. apply bt_eqb_eq. apply F. apply in_seq. lia.
+    - rewrite (bit_at_out x), (bit_at_out y) by lia. now apply bt_eqb_eq.
+  Qed.
+
+  Lemma rep_of_bit b : represents beta (av_of_bit b) (b2z (bv b)).
+  Proof.
+    intros i. unfold av_of_bit, bit_at. cbn [bits sgn].
+    destruct i as [|i].
+    - cbn [nth]. change (Z.of_nat 0) with 0. destruct (bv b); reflexivity.
+    - replace (nth (S i) [b] B0) with B0 by (destruct i; reflexivity). cbn [bt_val].
+      destruct (bv b); cbn [b2z]; [apply (small_bits 1 1); lia|apply Z.bits_0].
+  Qed.
+
+  Lemma bit_at_in x i : In (bit_at x i) (sgn x :: bits x).
+  Proof. unfold bit_at. destruct (nth_in_or_default i (bits x) (sgn x)) as [H|H]; [right; exact H|left; now rewrite H]. Qed.
+
+  Lemma rep_nonzero x a b : nonzero_bit x = Some b -> represents beta x a -> bv b = negb (a =? 0).
+  Proof.
+    unfold nonzero_bit. set (all := sgn x :: bits x). intros H R.
+    assert (Z0: (forall i, bv (bit_at x i) = false) -> a = 0).
+    { intros Hall. apply Z.bits_inj_0. intros k. destruct (Z.neg_nonneg_cases k) as [Hk|Hk]; [apply Z.testbit_neg_r; exact Hk|].
+      rewrite <- (Z2Nat.id k Hk). rewrite R. apply Hall. }
+    assert (NZ: forall i, bv (bit_at x i) = true -> (a =? 0) = false).
+    { intros i Hi. apply Z.eqb_neq. intros ->. specialize (R i). rewrite Z.bits_0 in R. congruence. }
+    destruct (existsb (bt_eqb B1) all) eqn:E.
+    - inversion H; subst b; clear H. apply existsb_exists in E. destruct E as [t [Hin Ht]]. apply bt_eqb_eq in Ht. subst t.
+      assert (exists i, bit_at x i = B1) as [i Hi].
+      { destruct Hin as [Hs|Hb].
+        - exists (length (bits x)). rewrite bit_at_out by lia. now symmetry.
+        - destruct (In_nth _ _ (sgn x) Hb) as [i [Hi Hn]]. exists i. exact Hn. }
+      simpl. rewrite (NZ i); [reflexivity|]. now rewrite Hi.
+    - destruct (filter (fun b => negb (bt_eqb b B0)) all) as [|c [|c' r]] eqn:F; [| |discriminate]; inversion H; subst b; clear H.
+      + simpl. rewrite Z0; [reflexivity|]. intros i.
+        assert (In (bit_at x i) all) by apply bit_at_in.
+        destruct (bt_eqb (bit_at x i) B0) eqn:Q; [apply bt_eqb_eq in Q; now rewrite Q|].
+        assert (In (bit_at x i) (filter (fun b => negb (bt_eqb b B0)) all)) by (apply filter_In; split; [assumption|now rewrite Q]).
+        rewrite F in H0. destruct H0.
+      + assert (Hc: In c all) by (apply (proj1 (filter_In (fun b => negb (bt_eqb b B0)) c all)); rewrite F; left; reflexivity).
+        assert (Each: forall i, bit_at x i = B0 \/ bit_at x i = c).
+        { intros i. destruct (bt_eqb (bit_at x i) B0) eqn:Q; [left; now apply bt_eqb_eq|right].
+          assert (In (bit_at x i) (filter (fun b => negb (bt_eqb b B0)) all)) by (apply filter_In; split; [apply bit_at_in|now rewrite Q]).
+          rewrite F in H. destruct H as [H|[]]. now symmetry. }
+        destruct (bv c) eqn:Vc.
+        * assert (exists i, bit_at x i = c) as [i Hi].
+          { destruct Hc as [Hs|Hb].
+            - exists (length (bits x)). rewrite bit_at_out by lia. exact Hs.
+            - destruct (In_nth _ _ (sgn x) Hb) as [i [Hi Hn]]. exists i. exact Hn. }
+          rewrite (NZ i); [reflexivity|]. now rewrite Hi.
+        * rewrite Z0; [reflexivity|]. intros i. destruct (Each i) as [Q|Q]; rewrite Q; [reflexivity|exact Vc].
+  Qed.
+End Bits.
+
+(* ================================================================ soundness of the symbolic evaluation of integer expressions *)
+Section AbsSound.
+  Variable beta : nat -> Z.
+  Variable g : aenv.
+  Variable rho : env.
+  Hypothesis Harg : forall a x, ae_arg g a = Some x -> represents beta x (arg_int (e_args rho) a).
+  Hypothesis Hslot : forall k x, ae_slot g k = Some x -> represents beta x (slot_int (e_slots rho) k).
+
+  Ltac ob H := let x := fresh "x" in let E := fresh "E" in
+    match type of H with obind ?o _ = Some _ => destruct o as [x|] eqn:E; [cbn [obind] in H|discriminate H] end.
+
+  Lemma abs_sound e : forall v, abs g e = Some v -> represents beta v (ieval rho e) /\ iub rho e = false.
+  Proof.
+    induction e; intros v H; cbn [abs] in H; try discriminate H; cbn [ieval iub].
+    - split; [now apply Harg|reflexivity].
+    - split; [now apply Hslot|reflexivity].
+    - inversion H; subst. split; [apply rep_const|reflexivity].
+    - ob H. ob H. destruct (IHe1 _ eq_refl) as [R1 U1], (IHe2 _ eq_refl) as [R2 U2]. split; [eapply rep_land; eauto|now rewrite U1, U2].
+    - ob H. ob H. destruct (IHe1 _ eq_refl) as [R1 U1], (IHe2 _ eq_refl) as [R2 U2]. split; [eapply rep_lor; eauto|now rewrite U1, U2].
+    - ob H. ob H. destruct (IHe1 _ eq_refl) as [R1 U1], (IHe2 _ eq_refl) as [R2 U2]. split; [eapply rep_lxor; eauto|now rewrite U1, U2].
+    - destruct (0 <=? k) eqn:K; [|discriminate]. apply Z.leb_le in K.
+      destruct (abs g e) as [x|] eqn:E; [|discriminate]. inversion H; subst. destruct (IHe _ eq_refl) as [R U].
+      split; [now apply rep_shl|exact U].
+    - destruct (0 <=? k) eqn:K; [|discriminate]. apply Z.leb_le in K.
+      destruct (abs g e) as [x|] eqn:E; [|discriminate]. inversion H; subst. destruct (IHe _ eq_refl) as [R U].
+      split; [now apply rep_shr|exact U].
+    - destruct (abs g e) as [x|] eqn:E; [|discriminate]. inversion H; subst. destruct (IHe _ eq_refl) as [R U].
+      split; [now apply rep_not|exact U].
+    - destruct (0 <? w) eqn:K; [|discriminate]. apply Z.ltb_lt in K.
+      destruct (abs g e) as [x|] eqn:E; [|discriminate]. inversion H; subst. destruct (IHe _ eq_refl) as [R U].
+      split; [now apply rep_cast|exact U].
+    - ob H. destruct (nonzero_bit x) as [b|] eqn:N; [|discriminate]. inversion H; subst. destruct (IHe _ eq_refl) as [R U].
+      split; [|exact U]. rewrite <- (rep_nonzero beta x _ b N R). apply rep_of_bit.
+    - ob H. destruct (nonzero_bit x) as [b|] eqn:N; [|discriminate]. inversion H; subst. destruct (IHe _ eq_refl) as [R U].
+      split; [|exact U]. replace (ieval rho e =? 0) with (bt_val beta (bnot b)); [apply rep_of_bit|].
+      rewrite bnot_val, (rep_nonzero beta x _ b N R). apply negb_involutive.
+    - (* EEq *) ob H. ob H. ob H. destruct (nonzero_bit x1) as [b|] eqn:N; [|discriminate]. inversion H; subst.
+      destruct (IHe1 _ eq_refl) as [R1 U1], (IHe2 _ eq_refl) as [R2 U2]. split; [|now rewrite U1, U2].
+      assert (RX := rep_lxor beta _ _ _ _ _ E1 R1 R2).
+      replace (ieval rho e1 =? ieval rho e2) with (bt_val beta (bnot b)); [apply rep_of_bit|].
+      rewrite bnot_val, (rep_nonzero beta x1 _ b N RX), negb_involutive.
+      destruct (ieval rho e1 =? ieval rho e2) eqn:Q.
+      + apply Z.eqb_eq in Q. rewrite Q, Z.lxor_nilpotent. reflexivity.
+      + apply Z.eqb_neq. intros C. apply Z.lxor_eq in C. apply Z.eqb_neq in Q. contradiction.
+    - (* ENe *) ob H. ob H. ob H. destruct (nonzero_bit x1) as [b|] eqn:N; [|discriminate]. inversion H; subst.
+      destruct (IHe1 _ eq_refl) as [R1 U1], (IHe2 _ eq_refl) as [R2 U2]. split; [|now rewrite U1, U2].
+      assert (RX := rep_lxor beta _ _ _ _ _ E1 R1 R2).
+      replace (negb (ieval rho e1 =? ieval rho e2)) with (bt_val beta b); [apply rep_of_bit|].
+      rewrite (rep_nonzero beta x1 _ b N RX). f_equal.
+      destruct (ieval rho e1 =? ieval rho e2) eqn:Q.
+      + apply Z.eqb_eq in Q. rewrite Q, Z.lxor_nilpotent. reflexivity.
+      + apply Z.eqb_neq. intros C. apply Z.lxor_eq in C. apply Z.eqb_neq in Q. contradiction.
+    - (* ECond *) ob H. ob H. ob H. ob H.
+      destruct (IHe1 _ eq_refl) as [R1 U1], (IHe2 _ eq_refl) as [R2 U2], (IHe3 _ eq_refl) as [R3 U3].
+      assert (C := rep_nonzero beta x _ x0 E0 R1).
+      split.
+      + intros i. rewrite (av_map2_bits beta (bmux x0) (fun a b => if bt_val beta x0 then a else b) x1 x2 v (bmux_val beta x0) H i).
+        rewrite C. destruct (ieval rho e1 =? 0); simpl; [apply R3|apply R2].
+      + rewrite U1. simpl. destruct (ieval rho e1 =? 0); assumption.
+  Qed.
+End AbsSound.
